@@ -5,6 +5,7 @@ package checks
 import (
 	"encoding/json"
 	"fmt"
+	"strconv"
 	"strings"
 
 	"verif/harness/internal/core"
@@ -90,10 +91,10 @@ func c20ReloadOne(c *core.Ctx, dir string, k c20ReloadCase) {
 		case r.Panic != nil:
 			return fmt.Sprintf("panic: %v", r.Panic)
 		case r.Err != nil:
-			return "error: " + strings.ReplaceAll(r.Err.Error(), dir, "")
+			return "error: " + strings.Trim(strconv.QuoteToASCII(strings.ReplaceAll(r.Err.Error(), dir, "")), "\"")
 		case strings.HasPrefix(sql, "SELECT") && len(r.Views) > 0:
 			v := r.Views[len(r.Views)-1]
-			return strings.Join(drv.Header(v), ",") + " " + drv.RowsKey(drv.Rows(v))
+			return fmt.Sprintf("%q", drv.Header(v)) + " " + drv.RowsKey(drv.Rows(v))
 		}
 		return "ok"
 	}
